@@ -43,8 +43,31 @@ def run(clause, ks):
     elif clause in ("union_above_members", "intersection_below_members"):
         kind = "Union" if clause.startswith("union") else "Inter"
         want = (Order.MORE, Order.LESS) if kind == "Union" else (Order.LESS, Order.MORE)
+        plain_kinds = ("Class", "Alias", "Strict", "HasMethod", "ClassCheck")  # kinds without a two-sided order hook
+
+        def member_kind(m):
+            import typing as _t
+
+            for k, ts in terms.items():
+                if any(m is x for x in ts):
+                    return k
+            if isinstance(m, type) and type(m) is type or _t.get_origin(m) is not None:
+                return "Class" if _t.get_origin(m) is None else "Alias"
+            from ovld.types import MetaMC
+
+            if isinstance(m, MetaMC):
+                h = m._handler
+                return {"Union": "Union", "Intersection": "Inter"}.get(type(h).__name__, getattr(getattr(h, "handler", None), "__name__", "?"))
+            from ovld.dependent import DependentType
+
+            return "FuncDep" if isinstance(m, DependentType) else "Class"
+
         for u in terms[kind]:
             for m in u.__args__:
+                mk = member_kind(m)
+                is_plain = mk in plain_kinds or mk in ("StrictSubclass", "HasMethod")
+                if ks and (ks[0] == "plain_member") != is_plain:
+                    continue
                 tried += 1
                 r1, r2 = safe(typeorder, u, m), safe(typeorder, m, u)
                 if (r1, r2) != want:
@@ -103,8 +126,10 @@ def _pairs():
 
 SUITE = list(_pairs()) + [("reflexive", [k]) for k in T.KINDS] + [
     ("class_fragment", []),
-    ("union_above_members", []),
-    ("intersection_below_members", []),
+    ("union_above_members", ["plain_member"]),
+    ("union_above_members", ["hooked_member"]),
+    ("intersection_below_members", ["plain_member"]),
+    ("intersection_below_members", ["hooked_member"]),
     ("alias_origin", []),
     ("alias_argwise", []),
 ] + [("dependent_below_bound", [k]) for k in ["Equals", "FuncDep", "Product"]]
